@@ -139,6 +139,14 @@ func genPosition(rng *PRNG, terminalPct int) (string, *rules.Pos) {
 			return "position startpos moves " + strings.Join(ms, " "), p
 		}
 	}
+	if rng.Intn(100) < 7 {
+		// a draw by rule within reach of the search (not at the root): the
+		// half-move clock a few plies before 100, or every position of a
+		// shuffle already seen twice
+		if cmd, p, ok := genNearRuleDraw(rng); ok {
+			return cmd, p
+		}
+	}
 	var fen string
 	if rng.Chance(0.3) {
 		fen = rules.StartFen
@@ -186,6 +194,78 @@ func genPosition(rng *PRNG, terminalPct int) (string, *rules.Pos) {
 	return cmd, p
 }
 
+// genNearRuleDraw returns a non-terminal root from which moves inside the
+// search tree end the game by rule.
+func genNearRuleDraw(rng *PRNG) (string, *rules.Pos, bool) {
+	fen := Corpus[rng.Intn(len(Corpus))]
+	if rng.Chance(0.3) {
+		fen = rules.StartFen
+	}
+	p := rules.MustFen(fen)
+	if rng.Chance(0.5) {
+		if p.Ep >= 0 {
+			return "", nil, false
+		}
+		p.HalfMove = rng.Range(92, 99)
+		if p.FullMove < 60 {
+			p.FullMove = rng.Range(60, 120)
+		}
+		f := p.Fen()
+		q, err := rules.ParseFen(f)
+		if err != nil || !q.Sane() || len(q.LegalMoves()) == 0 {
+			return "", nil, false
+		}
+		return "position fen " + f, q, true
+	}
+	ms := Playout(p, rng.Intn(12), rng)
+	// a shuffle: both sides move a piece out and back, so that the root and
+	// the positions on the way have been seen twice / once before
+	for tries := 0; tries < 10; tries++ {
+		q := p.Clone()
+		var sh []string
+		ok := true
+		var out [2]string
+		for k := 0; k < 2 && ok; k++ {
+			var cand []string
+			for _, m := range q.LegalMoves() {
+				if u := m.String(); len(u) == 4 {
+					cand = append(cand, u)
+				}
+			}
+			if len(cand) == 0 {
+				ok = false
+				break
+			}
+			out[k] = cand[rng.Intn(len(cand))]
+			before := q.HalfMove
+			if q.Play(out[k]) != nil || q.HalfMove != before+1 {
+				ok = false // capture or pawn move: not reversible
+				break
+			}
+			sh = append(sh, out[k])
+		}
+		for k := 0; k < 2 && ok; k++ {
+			back := out[k][2:4] + out[k][0:2]
+			before := q.HalfMove
+			if q.Play(back) != nil || q.HalfMove != before+1 {
+				ok = false
+				break
+			}
+			sh = append(sh, back)
+		}
+		if !ok || len(q.LegalMoves()) == 0 || q.Placement() != p.Placement() {
+			continue
+		}
+		all := append(append([]string{}, ms...), sh...)
+		cmd := "position fen " + fen
+		if fen == rules.StartFen {
+			cmd = "position startpos"
+		}
+		return cmd + " moves " + strings.Join(all, " "), q, true
+	}
+	return "", nil, false
+}
+
 func gapAfterResult(rng *PRNG) int64 {
 	switch rng.Intn(5) {
 	case 0:
@@ -222,6 +302,10 @@ func GenUciSession(prop string, seed uint64) *Scenario {
 		return &sc.Steps[len(sc.Steps)-1]
 	}
 	add(100, "send", "uci")
+	if rng.Intn(100) < 6 {
+		// a button pressed before anything has been initialised
+		add(50, "send", "setoption name Clear Hash")
+	}
 	add(100, "send", "isready")
 	add(0, "wait_ready", "").MaxMs = 50
 
@@ -340,6 +424,11 @@ func GenUciSession(prop string, seed uint64) *Scenario {
 			// lowest announced value (min 0: the engine's default size)
 			v := []int{0, 0, 1, 3, 8}[rng.Intn(5)]
 			add(gapAfterResult(rng), "send", fmt.Sprintf("setoption name Hash value %d", v))
+			firstGap = int64(rng.Range(0, 300))
+		}
+		if rng.Intn(100) < 6 {
+			// the hash is cleared between two searches (with Use_Hash off there is no table)
+			add(gapAfterResult(rng), "send", "setoption name Clear Hash")
 			firstGap = int64(rng.Range(0, 300))
 		}
 		posCmd, root := genPosition(rng, pf.Terminal)
